@@ -681,6 +681,37 @@ def _check_partition(ctx, fn: ast.FunctionDef) -> None:
     ACTIVE = match.role(fn, lambda v: isinstance(v, ast.ListComp) and any(isinstance(c, ast.Call) and last_attr(c) == "node_is_active"
                                                                            for g in v.generators for c in g.ifs), "active_predecessors")
 
+    # the flag is the workflow's own notion of "repeating" - the isRepeat attribute the engine factory reads (repeatInterval 0 or
+    # None both mean "does not repeat": isRepeat = repeatInterval not in [None, 0]) - or the constant False
+    def reads_is_repeat(v: ast.AST) -> bool:
+        while True:
+            if isinstance(v, ast.Call) and call_name(v) == "bool" and len(v.args) == 1:
+                v = v.args[0]
+                continue
+            cp_ = match.compare_parts(v)
+            if cp_ and isinstance(cp_[1], (ast.Is, ast.Eq)) and isinstance(cp_[2], ast.Constant) and cp_[2].value is True:
+                v = cp_[0]
+                continue
+            break
+        if isinstance(v, ast.Subscript) and isinstance(v.slice, ast.Constant) and v.slice.value == "isRepeat":
+            return True
+        if isinstance(v, ast.Attribute) and v.attr == "isRepeat":
+            return True
+        if isinstance(v, ast.Call) and last_attr(v) == "get" and v.args and isinstance(v.args[0], ast.Constant) and v.args[0].value == "isRepeat":
+            return len(v.args) == 1 or (isinstance(v.args[1], ast.Constant) and not v.args[1].value)
+        return False
+    derivations = [a for a in source.walk_own(fn) if isinstance(a, ast.Assign) and any(isinstance(t, ast.Name) and t.id == IS_REPEAT for t in a.targets)]
+    ctx.floor("C01.R5-partition", len(derivations), 2, "derivations of the 'is repeating' flag in _comp_get_active_predecessors")
+    for a in derivations:
+        const = isinstance(a.value, ast.Constant) and a.value.value is False
+        ok = const or reads_is_repeat(a.value)
+        ctx.ob("C01.R5-partition", a, ok,
+               "the flag is %s" % ("the constant False" if const else "the component's isRepeat attribute (what the engine factory reads)") if ok else
+               "the 'is repeating' flag is derived as %s, not read from the component's isRepeat attribute: a component the engine factory "
+               "treats as non-repeating (repeatInterval: 0 gives isRepeat False and a plain Engine) is scheduled as an observer - its "
+               "same-stage producers become subjects and its single task is launched while they are still running" % short(a.value, 70),
+               construct="%s <- isRepeat" % IS_REPEAT, trivial=const)
+
     def atomise(e: ast.AST) -> Optional[Tuple[str, bool]]:
         """map an atomic condition to (atom, polarity)"""
         cp = match.compare_parts(e)
